@@ -96,7 +96,46 @@ def err_kind(e):
         return 'err:ValueError'
     if isinstance(e, IndexError):
         return 'err:IndexError'
-    return 'err:Other'
+    # The models answer `err:Other` where the code raises TypeError / AttributeError / OverflowError (None arithmetic, date
+    # overflow): these three are kept apart in the evidence (`err_other_types`, by exception type), and any OTHER exception
+    # type is spelled out, so that it can never be mistaken for the modelled ones (audit item 36).
+    n = type(e).__name__
+    common.ERR_OTHER[n] = common.ERR_OTHER.get(n, 0) + 1
+    if isinstance(e, (TypeError, AttributeError, OverflowError)):
+        return 'err:Other'
+    return 'err:Other:' + n
+
+
+def entity_values(T, dtype, inner, culture='en-us'):
+    """What the entity resolves to once a date / time / datetime parser's result `inner` (DateTimeResolutionResult, or an
+    exception instance the parser raised) has gone through the parser's `parse` wrapping (future / past resolution dicts, value,
+    timex_str) and the merged parser's `_date_time_resolution` — the implementation side of the entity-level compositions
+    `resolveDateZh` / `resolveTimeZh` / `resolveTimeOfToday` of RTV.DtRes (driver ops dt.rdatezh / dt.rtimezh / dt.rtod).
+    -> the driver's `values` form, or err:<Kind>."""
+    if isinstance(inner, Exception):
+        return err_kind(inner)
+    from recognizers_date_time.date_time.parsers import DateTimeParseResult
+    from recognizers_text.extractor import ExtractResult
+    F = T.utilities.DateTimeFormatUtil
+    TT = T.TimeTypeConstants
+    key = {'date': TT.DATE, 'time': TT.TIME, 'datetime': TT.DATETIME}[dtype]
+    fmt = {'date': F.format_date, 'time': F.format_time, 'datetime': F.format_date_time}[dtype]
+    try:
+        src = ExtractResult()
+        src.start, src.length, src.text, src.type = 0, 1, 'x', dtype
+        slot = DateTimeParseResult(src)
+        slot.type = dtype
+        if inner is not None and inner.success:
+            inner.future_resolution = {key: fmt(inner.future_value)}
+            inner.past_resolution = {key: fmt(inner.past_value)}
+            slot.value = inner
+            slot.timex_str = inner.timex
+        else:
+            slot.value = None
+            slot.timex_str = ''
+        return values_str(T.merged(culture)._date_time_resolution(slot, False, False, False))
+    except Exception as e:
+        return err_kind(e)
 
 
 # ---------------------------------------------------------------- the working tree's objects
